@@ -46,7 +46,7 @@ inductive JS where
   | assigned   -- handed to a worker goroutine; not started yet
   | active     -- executing
   | finished   -- returned (a nil job: skipped)
-deriving DecidableEq, Repr, Inhabited
+deriving DecidableEq, Repr, Inhabited, Hashable
 
 structure Job where
   isNil : Bool
@@ -57,7 +57,7 @@ structure Job where
   owner : Nat := 0
   /-- ghost: how often the job has been entered -/
   starts : Nat := 0
-deriving DecidableEq, Repr, Inhabited
+deriving DecidableEq, Repr, Inhabited, Hashable
 
 /-- worker goroutine (`executeJob`) -/
 inductive WSt where
@@ -65,21 +65,21 @@ inductive WSt where
   | inJob (j : Nat)    -- inside job `j`
   | afterJob           -- job returned; critical section pending
   | retired
-deriving DecidableEq, Repr, Inhabited
+deriving DecidableEq, Repr, Inhabited, Hashable
 
 inductive Res where
   | nil | canceled | err
-deriving DecidableEq, Repr, Inhabited
+deriving DecidableEq, Repr, Inhabited, Hashable
 
 /-- answer of a WatchState callback -/
 inductive Act where
   | cont | stop | err
-deriving DecidableEq, Repr, Inhabited
+deriving DecidableEq, Repr, Inhabited, Hashable
 
 /-- what the harness does to an errCh -/
 inductive Msg where
   | nilErr | err | close
-deriving DecidableEq, Repr, Inhabited
+deriving DecidableEq, Repr, Inhabited, Hashable
 
 /-- API call (thread) state -/
 inductive TS where
@@ -94,7 +94,7 @@ inductive TS where
   | wsParked (q r : Int) (ch : Nat)
   | wsDone (r : Res)
   | finished
-deriving DecidableEq, Repr, Inhabited
+deriving DecidableEq, Repr, Inhabited, Hashable
 
 structure St where
   created : Bool := false
@@ -110,7 +110,7 @@ structure St where
   mail : List (Nat × Msg) := []
   nseq : Nat := 0
   nasg : Nat := 0
-deriving DecidableEq, Repr
+deriving DecidableEq, Repr, Hashable
 
 inductive Obs where
   | invNew (t : Nat) (L : Int) (js : List (Nat × Bool))   -- `inv t new L j n j …`  (`nJ` = nil job with id J)
